@@ -150,6 +150,11 @@ CLAIM = dict(
           "three hangs; a call that does not return is the finding did-not-return (the model's runs end: tables_total, "
           "load_exact, load_tables_spec, readback_exact); a session stops at a hang."),
     technique="Lean 4 theorems over a hand-written model + differential correspondence + Lean spec as oracle")
+CLAIM["note"] += (" SESSION ORACLE failed-load-removed-installed-entries (third session): a load that FAILED (network fault, refused "
+                  "allocation) may leave its own block in any state, but every router row that held an entry before the step must "
+                  "hold the same entry under the same owner after it - the tables earlier loads installed are what the application "
+                  "runs on.  The simulated network delivers a reply only to the socket that sent the request (two controllers of a "
+                  "session have their own UDP ports).")
 
 THEOREMS = ["routes_enum_documented", "traverse_exact", "tables_exact", "multisource_iff", "tables_total",
             "tables_spec", "rte_roundtrip", "route_word_bits", "load_exact", "load_alloc_failure",
